@@ -490,7 +490,12 @@ func (s *Sched) threadMain(t *thread, body func()) {
 				s.aborted = true
 				s.abortBy = t
 				s.status = StatusPanic
-				s.detail = fmt.Sprintf("thread %d (%s): %v\n%s", t.id, t.name, r, debug.Stack())
+				if to, ok := r.(TickOverflow); ok {
+					// a library loop that never ends and never reaches a scheduling point: deterministic text, no stack
+					s.detail = fmt.Sprintf("thread %d (%s) spins without ever yielding: %v", t.id, t.name, to)
+				} else {
+					s.detail = fmt.Sprintf("thread %d (%s): %v\n%s", t.id, t.name, r, debug.Stack())
+				}
 				s.finished <- struct{}{}
 			}
 			return
